@@ -6,9 +6,9 @@ import random
 import common as C
 import c12
 
-COQ_FILES = ("L4_Eval/Store.v", "L5_Stores/RunStore.v", "L5_Stores/PathMap.v", "L5_Stores/PathMapProofs.v", "L6_Conc/LocalProgs.v", "L6_Conc/SeqRefine.v", "Properties/C08.v", "Properties/C08b.v")
-PROPERTY_FILES = ("C08", "C08b")
-EXTRACTED = ("ConstStore",)
+COQ_FILES = ("L4_Eval/Store.v", "L5_Stores/RunStore.v", "L5_Stores/PathMap.v", "L5_Stores/PathMapProofs.v", "L6_Conc/LocalProgs.v", "L6_Conc/SeqRefine.v", "Properties/C08.v", "Properties/C08b.v", "Base/PyRt.v", "Extracted/GenPath.v", "L5_Stores/GenPathProofs.v", "Properties/C08g.v")
+PROPERTY_FILES = ("C08", "C08b", "C08g")
+EXTRACTED = ("ConstStore", "GenPath")
 ALLOWED_AXIOMS = ()
 
 PRELUDE = c12.PRELUDE
